@@ -127,3 +127,33 @@ def stop_dump(h):
         h.check('the-dumped-solver-is-finalized-like-the-solver-Step-leaves', 'dl is live1', dl=dl, live1=live1)
         h.check('the-dumped-solver-has-every-monitor-record-and-evaluation-of-the-solver-Step-leaves', 'dn == n1 and de == e1',
                 dn=dn, n1=n1, de=de, e1=e1)
+
+
+@contract('C06/AbstractSolver.__save_state', ['C06'], A + '._AbstractSolver__save_state', native=False)
+def save_state(h):
+    """the periodic restart dump: written exactly when the generation count is a multiple of the registered save
+    frequency (every generation for frequency 1, never without a frequency); a forced dump (at STOP) is written exactly
+    when a state file is registered; never twice in one call"""
+    if not h.is_sym():
+        h.unsupported('symbolic only')
+    force = h.choice('force', [False, True])
+    freq = h.choice('save_frequency', ['None', 'int'])
+    registered = h.choice('state_file_registered', [False, True])
+    k = h.int('frequency')
+    h.assume('k >= 1', k=k)
+    g = h.int('generations')
+    h.assume('g >= 0', g=g)
+    mon = h.obj('mystic/monitors.py::Monitor', _x=h.list_real('sx'), _y=h.list_real('sy'), _id=h.clist([]), _info=h.clist([]), k=None, _npts=None, label='s')
+    h.assume('len(mon._x) == g + 1 and len(mon._y) == g + 1', mon=mon, g=g)
+    s = h.obj(A, _stepmon=mon, _saveiter=(k if freq == 'int' else None), _state=('restart.pkl' if registered else None))
+    dumps = []
+    h.set_summaries({(AS, 'AbstractSolver.SaveSolver'): lambda I, c, a, kw: dumps.append(1)})
+    h.call(h.getattr(s, '_AbstractSolver__save_state'), force)
+    n = len(dumps)
+    if force and registered:
+        h.check('forced-dump-written-once-to-the-registered-file', 'n == 1', n=n)
+    elif freq == 'int':
+        # (a forced call without a registered file falls through to the periodic rule)
+        h.check('periodic-dump-exactly-at-multiples-of-the-frequency', 'n == (1 if g % k == 0 else 0)', n=n, g=g, k=k)
+    else:
+        h.check('no-dump-without-a-frequency', 'n == 0', n=n)
